@@ -111,3 +111,17 @@ C("tal.py::RepeatDict.__call__", params={"self": "any", "key": "str", "iterable"
   serves=["C08", "C01"],
   notes="list()/iter()/RepeatItem() are events of the ghost trace; a non-iterable operand raises "
         "whatever list() raises and nothing is registered")
+
+
+# ---------------------------------------------------------------------------------------
+# tal.ErrorInfo.__init__ (C13): the K3 schemas assume, at the call the emitted on-error handler makes,
+# that a (line, column) pair is all the constructor needs - proved here for every such pair
+# ---------------------------------------------------------------------------------------
+
+REC_FIELDS["tal.py::ErrorInfo"] = {"type": "any", "value": "any", "lineno": "opt[int]", "offset": "opt[int]"}
+C("tal.py::ErrorInfo.__init__",
+  params={"self": "rec[tal.py::ErrorInfo]", "err": "any", "position": "tuple[opt[int],opt[int]]"},
+  ensures=["self.lineno == position[0]", "self.offset == position[1]"],
+  serves=["C13"],
+  notes="no exception may escape for any (line, column) pair: the precondition the K3 call site "
+        "`call:ErrorInfo.pre[position]` establishes")
